@@ -46,7 +46,7 @@ func linModel(init *refmodel.Model) porcupine.Model {
 				return false
 			}
 			for i := range ma.DBs {
-				da, db := ma.Dump(i, time.Time{}), mb.Dump(i, time.Time{})
+				da, db := ma.DumpDeadlines(i), mb.DumpDeadlines(i)
 				if len(da) != len(db) {
 					return false
 				}
